@@ -115,6 +115,24 @@ func ruleKvGroupByNewestRowDecides(c *Ctx) {
 			if stopped {
 				continue
 			}
+			// the key may just as well be recorded BEFORE the value is read, in the same iteration:
+			// a decision-map update that dominates the read and is itself dominated by a Next() call
+			early := false
+			for _, bb := range fn.Blocks {
+				for _, in := range bb.Instrs {
+					if !isDecision(in) || !Dominates(in, v) {
+						continue
+					}
+					for _, nx := range nexts {
+						if Dominates(nx, in) {
+							early = true
+						}
+					}
+				}
+			}
+			if early {
+				continue
+			}
 			for _, s := range b.Succs {
 				r := NewReachFromBlock(s, nil, isDecision)
 				for _, nx := range nexts {
